@@ -7,13 +7,37 @@ Import ListNotations.
 (** whatever [asm()] emits for a sensible (mnemonic, operand) pair carries as [nb_bytes] the
     size of the encoding a 6502 assembler selects for it (zero-page form for page-zero
     operands when the mnemonic has one, absolute form otherwise), for every variable kind,
-    memory class, offset, byte selection and bank-switching scheme *)
+    memory class, offset >= 0, byte selection and bank-switching scheme.  [popnd_zp e (e_op em)]
+    says where the emitted operand really is: for a constant pointer whose address [a] is known
+    ([v_addr v = Some a], [unsigned char *const R = 0xff;]) it is [a + printed offset < $100], on
+    both sides of the page boundary; otherwise the memory class decides.  [expr_wf]: class and
+    known address agree ([var_wf]), as the compiler produces them. *)
 Theorem C04_asm_sel_size : forall sch m e high m' sg em md,
   sensible m e = true ->
+  expr_wf e -> expr_off_nonneg e ->
   asm_sel sch m e high = AEmit m' sg em ->
-  resolve m' (shape_of (operand_of (e_op em))) (popnd_zp e) = Some md ->
+  resolve m' (shape_of (operand_of (e_op em))) (popnd_zp e (e_op em)) = Some md ->
   mode_size md = e_bytes em.
 Proof. exact asm_sel_size. Qed.
+
+(** what "really is" means for an access through a constant pointer at a known address *)
+Theorem C04_popnd_zp_known_addr : forall sch m v eight off high m' sg em a y k ix al,
+  v_addr v = Some a ->
+  asm_sel sch m (EAbsolute v eight off) high = AEmit m' sg em ->
+  e_op em = PMem y k ix al -> al = true ->
+  k = (off + port_offset sch (v_mem v) m + if high then 1 else 0)%Z /\
+  popnd_zp (EAbsolute v eight off) (e_op em) = (a + k <? 256)%Z.
+Proof. exact popnd_zp_known_addr. Qed.
+
+(** the rule before the page-boundary fix (size from the memory class alone, [asm_sel_old]) does
+    not satisfy the statement: [STA R+1] with [R] at $ff is 3 bytes, it reported 2 *)
+Theorem C04_asm_sel_old_size_fails :
+  ~ (forall sch m e high m' sg em md,
+       sensible m e = true -> expr_wf e -> expr_off_nonneg e ->
+       asm_sel_old sch m e high = AEmit m' sg em ->
+       resolve m' (shape_of (operand_of (e_op em))) (popnd_zp e (e_op em)) = Some md ->
+       mode_size md = e_bytes em).
+Proof. exact asm_sel_old_size_fails. Qed.
 
 (** the optimiser only deletes: the reported size never grows and every remaining instruction
     is one that was emitted (with its size) *)
